@@ -291,116 +291,175 @@ def n2h353 (n2h : List (Str × Str)) (item : Str) : List (Str × Str) :=
 
 def nth (l : List Str) (i : Nat) : Option Str := l[i]?
 
-/-- the command-specific part of `IrcState.addMsg`; the Bool says "raised" -/
-def Bot.stateCmd (b : Bot) (m : Msg) : Bot × Bool :=
-  let key := m.cmd.map asciiUpperChar
-  if key = "JOIN".toList then
-    match m.args with
-    | [] => (b, true)
-    | a0 :: _ => ((splitChar ',' a0).foldl (Bot.joinOne m.nick) b, false)
-  else if key = "PART".toList then
-    match m.args with
-    | [] => (b, true)
-    | a0 :: _ => ((splitChar ',' a0).foldl (Bot.partOne m.nick) b, false)
-  else if key = "KICK".toList then
-    match m.args with
-    | ch :: us :: _ =>
-      match b.chan ch with
-      | none => (b, true)
-      | some _ => (b.kickLoop (lower ch) (splitChar ',' us), false)
-    | _ => (b, true)
-  else if key = "QUIT".toList then
-    ({ b with channels := amapAll b.channels (fun c => if lower m.nick ∈ c.users then c.removeUser m.nick else c),
-              n2h := adel b.n2h (lower m.nick) }, false)
-  else if key = "TOPIC".toList then
-    match m.args with
-    | [] => (b, true)
-    | [_] => (b, false)
-    | ch :: t :: _ =>
-      match b.chan ch with
-      | none => (b, false)
-      | some c => (b.setChan ch { c with topic := t }, false)
-  else if key = "332".toList then
-    match m.args with
-    | _ :: ch :: rest =>
-      match b.chan ch with
-      | none => (b, true)
-      | some c =>
-        match rest with
-        | [] => (b, true)
-        | t :: _ => (b.setChan ch { c with topic := t }, false)
-    | _ => (b, true)
-  else if key = "NICK".toList then
-    match m.args with
-    | [] => (b, true)
-    | newNick :: _ =>
-      let b1 := { b with n2h := adel b.n2h (lower m.nick) }
-      if !m.user.isEmpty && !m.host.isEmpty then
-        if newNick.isEmpty then (b1, true)
-        else
-          ({ b1 with n2h := aset b1.n2h (lower newNick) (mkHostmask newNick m.user m.host),
-                     channels := amapAll b1.channels (fun c => c.replaceUser m.nick newNick) }, false)
-      else ({ b1 with channels := amapAll b1.channels (fun c => c.replaceUser m.nick newNick) }, false)
-  else if key = "MODE".toList then
-    match m.args with
-    | [] => (b, true)
-    | ch :: rest =>
-      if isChannel ch then
-        let r := (b.chanOrNew ch).doMode rest
-        (b.setChan ch r.1, r.2)
-      else (b, false)
-  else if key = "324".toList then
-    match m.args with
-    | _ :: ch :: rest =>
-      let r := runSteps Chan.step324 (b.chanOrNew ch) (separateModes rest)
-      (b.setChan ch r.1, r.2)
-    | _ => (b, true)
-  else if key = "329".toList then
-    match m.args with
-    | _ :: ch :: rest =>
-      let c := b.chanOrNew ch
+/-- commands with a handler in the model (`dispatchCommand`: `'do' + command.upper().capitalize()`) -/
+inductive Cmd
+  | join | part | kick | quit | topic | n332 | nick | mode | n324 | n329 | n353 | n352 | n354 | n367
+  | chghost | n315 | other
+deriving Repr, DecidableEq, Inhabited
+
+def cmdOf (cmd : Str) : Cmd :=
+  let key := cmd.map asciiUpperChar
+  if key = "JOIN".toList then .join
+  else if key = "PART".toList then .part
+  else if key = "KICK".toList then .kick
+  else if key = "QUIT".toList then .quit
+  else if key = "TOPIC".toList then .topic
+  else if key = "332".toList then .n332
+  else if key = "NICK".toList then .nick
+  else if key = "MODE".toList then .mode
+  else if key = "324".toList then .n324
+  else if key = "329".toList then .n329
+  else if key = "353".toList then .n353
+  else if key = "352".toList then .n352
+  else if key = "354".toList then .n354
+  else if key = "367".toList then .n367
+  else if key = "CHGHOST".toList then .chghost
+  else if key = "315".toList then .n315
+  else .other
+
+/-! the handlers of `IrcState`; the Bool says "raised" -/
+
+def Bot.doJoin (b : Bot) (m : Msg) : Bot × Bool :=
+  match m.args with
+  | [] => (b, true)
+  | a0 :: _ => ((splitChar ',' a0).foldl (Bot.joinOne m.nick) b, false)
+
+def Bot.doPart (b : Bot) (m : Msg) : Bot × Bool :=
+  match m.args with
+  | [] => (b, true)
+  | a0 :: _ => ((splitChar ',' a0).foldl (Bot.partOne m.nick) b, false)
+
+def Bot.doKick (b : Bot) (m : Msg) : Bot × Bool :=
+  match m.args with
+  | ch :: us :: _ =>
+    match b.chan ch with
+    | none => (b, true)
+    | some _ => (b.kickLoop (lower ch) (splitChar ',' us), false)
+  | _ => (b, true)
+
+def Bot.doQuit (b : Bot) (m : Msg) : Bot × Bool :=
+  ({ b with channels := amapAll b.channels (fun c => if lower m.nick ∈ c.users then c.removeUser m.nick else c),
+            n2h := adel b.n2h (lower m.nick) }, false)
+
+def Bot.doTopic (b : Bot) (m : Msg) : Bot × Bool :=
+  match m.args with
+  | [] => (b, true)
+  | [_] => (b, false)
+  | ch :: t :: _ =>
+    match b.chan ch with
+    | none => (b, false)
+    | some c => (b.setChan ch { c with topic := t }, false)
+
+def Bot.do332 (b : Bot) (m : Msg) : Bot × Bool :=
+  match m.args with
+  | _ :: ch :: rest =>
+    match b.chan ch with
+    | none => (b, true)
+    | some c =>
       match rest with
-      | [] => (b.setChan ch c, true)
-      | t :: _ =>
-        match pyInt t with
-        | none => (b.setChan ch c, true)
-        | some n => (b.setChan ch { c with created := n }, false)
-    | _ => (b, true)
-  else if key = "353".toList then
-    match m.args with
-    | [_, type, ch, items] =>
-      let its := splitWs items
-      let c := its.foldl (fun c item => c.addUser (item353Name item)) (b.chanOrNew ch)
-      let c := if type = ['@'] then { c with modes := aset c.modes 's' none } else c
-      ({ b.setChan ch c with n2h := its.foldl n2h353 b.n2h }, false)
-    | _ => (b, true)
-  else if key = "352".toList then
-    match nth m.args 5, nth m.args 2, nth m.args 3 with
-    | some nick, some user, some host =>
-      ({ b with n2h := aset b.n2h (lower nick) (mkHostmask nick user host) }, false)
-    | _, _, _ => (b, true)
-  else if key = "354".toList then
-    match m.args with
-    | [_, t, user, _, host, nick, _, _, _] =>
-      if t = ['1'] then ({ b with n2h := aset b.n2h (lower nick) (mkHostmask nick user host) }, false)
-      else (b, false)
-    | _ => (b, false)
-  else if key = "367".toList then
-    match m.args with
-    | _ :: ch :: rest =>
-      match b.chan ch with
-      | none => (b, false)
-      | some c =>
-        match rest with
-        | [] => (b, true)
-        | mask :: _ => (b.setChan ch { c with bans := sadd c.bans (lower mask) }, false)
-    | _ => (b, true)
-  else if key = "CHGHOST".toList then
-    match m.args with
-    | [user, host] =>
-      ({ b with n2h := aset b.n2h (lower m.nick) (mkHostmask m.nick user host) }, false)
-    | _ => (b, true)
-  else (b, false)
+      | [] => (b, true)
+      | t :: _ => (b.setChan ch { c with topic := t }, false)
+  | _ => (b, true)
+
+def Bot.doNick (b : Bot) (m : Msg) : Bot × Bool :=
+  match m.args with
+  | [] => (b, true)
+  | newNick :: _ =>
+    let b1 := { b with n2h := adel b.n2h (lower m.nick) }
+    if !m.user.isEmpty && !m.host.isEmpty then
+      if newNick.isEmpty then (b1, true)
+      else
+        ({ b1 with n2h := aset b1.n2h (lower newNick) (mkHostmask newNick m.user m.host),
+                   channels := amapAll b1.channels (fun c => c.replaceUser m.nick newNick) }, false)
+    else ({ b1 with channels := amapAll b1.channels (fun c => c.replaceUser m.nick newNick) }, false)
+
+def Bot.doMode (b : Bot) (m : Msg) : Bot × Bool :=
+  match m.args with
+  | [] => (b, true)
+  | ch :: rest =>
+    if isChannel ch then
+      let r := (b.chanOrNew ch).doMode rest
+      (b.setChan ch r.1, r.2)
+    else (b, false)
+
+def Bot.do324 (b : Bot) (m : Msg) : Bot × Bool :=
+  match m.args with
+  | _ :: ch :: rest =>
+    let r := runSteps Chan.step324 (b.chanOrNew ch) (separateModes rest)
+    (b.setChan ch r.1, r.2)
+  | _ => (b, true)
+
+def Bot.do329 (b : Bot) (m : Msg) : Bot × Bool :=
+  match m.args with
+  | _ :: ch :: rest =>
+    let c := b.chanOrNew ch
+    match rest with
+    | [] => (b.setChan ch c, true)
+    | t :: _ =>
+      match pyInt t with
+      | none => (b.setChan ch c, true)
+      | some n => (b.setChan ch { c with created := n }, false)
+  | _ => (b, true)
+
+def Bot.do353 (b : Bot) (m : Msg) : Bot × Bool :=
+  match m.args with
+  | [_, type, ch, items] =>
+    let its := splitWs items
+    let c := its.foldl (fun c item => c.addUser (item353Name item)) (b.chanOrNew ch)
+    let c := if type = ['@'] then { c with modes := aset c.modes 's' none } else c
+    ({ b.setChan ch c with n2h := its.foldl n2h353 b.n2h }, false)
+  | _ => (b, true)
+
+def Bot.do352 (b : Bot) (m : Msg) : Bot × Bool :=
+  match nth m.args 5, nth m.args 2, nth m.args 3 with
+  | some nick, some user, some host =>
+    ({ b with n2h := aset b.n2h (lower nick) (mkHostmask nick user host) }, false)
+  | _, _, _ => (b, true)
+
+def Bot.do354 (b : Bot) (m : Msg) : Bot × Bool :=
+  match m.args with
+  | [_, t, user, _, host, nick, _, _, _] =>
+    if t = ['1'] then ({ b with n2h := aset b.n2h (lower nick) (mkHostmask nick user host) }, false)
+    else (b, false)
+  | _ => (b, false)
+
+def Bot.do367 (b : Bot) (m : Msg) : Bot × Bool :=
+  match m.args with
+  | _ :: ch :: rest =>
+    match b.chan ch with
+    | none => (b, false)
+    | some c =>
+      match rest with
+      | [] => (b, true)
+      | mask :: _ => (b.setChan ch { c with bans := sadd c.bans (lower mask) }, false)
+  | _ => (b, true)
+
+def Bot.doChghost (b : Bot) (m : Msg) : Bot × Bool :=
+  match m.args with
+  | [user, host] =>
+    ({ b with n2h := aset b.n2h (lower m.nick) (mkHostmask m.nick user host) }, false)
+  | _ => (b, true)
+
+/-- the command-specific part of `IrcState.addMsg` -/
+def Bot.stateCmd (b : Bot) (m : Msg) : Bot × Bool :=
+  match cmdOf m.cmd with
+  | .join => b.doJoin m
+  | .part => b.doPart m
+  | .kick => b.doKick m
+  | .quit => b.doQuit m
+  | .topic => b.doTopic m
+  | .n332 => b.do332 m
+  | .nick => b.doNick m
+  | .mode => b.doMode m
+  | .n324 => b.do324 m
+  | .n329 => b.do329 m
+  | .n353 => b.do353 m
+  | .n352 => b.do352 m
+  | .n354 => b.do354 m
+  | .n367 => b.do367 m
+  | .chghost => b.doChghost m
+  | .n315 => (b, false)
+  | .other => (b, false)
 
 /-- `IrcState.addMsg`: hostmask bookkeeping, then the command handler -/
 def Bot.addMsg (b : Bot) (m : Msg) : Bot × Bool :=
@@ -411,35 +470,39 @@ def Bot.addMsg (b : Bot) (m : Msg) : Bot × Bool :=
 inductive Exc | none | irc | state
 deriving Repr, DecidableEq, Inhabited
 
+/-- `Irc.doNick` (the bot's own nick change; `followIdentificationThroughNickChanges` off) -/
+def Bot.ircNick (b : Bot) (m : Msg) : Bot × Bool :=
+  if m.nick = b.nick then
+    match m.args with
+    | [] => (b, true)
+    | newNick :: _ =>
+      let b1 := { b with nick := newNick }
+      match splitHostmask m.pfx with
+      | none => (b1, true)
+      | some (_, user, domain) =>
+        if newNick.isEmpty || user.isEmpty || domain.isEmpty then (b1, true)
+        else ({ b1 with pfx := mkHostmask newNick user domain }, false)
+  else (b, false)
+
+/-- `Irc.doChghost` (the bot's own host change) -/
+def Bot.ircChghost (b : Bot) (m : Msg) : Bot × Bool :=
+  if m.nick = b.nick then
+    match m.args with
+    | [user, host] =>
+      if b.nick.isEmpty || user.isEmpty || host.isEmpty then (b, true)
+      else ({ b with pfx := mkHostmask b.nick user host }, false)
+    | _ => (b, true)
+  else (b, false)
+
 /-- the `Irc`-level handlers that exist for the modelled commands (`Irc.doJoin`, `Irc.doNick`,
 `Irc.do315`, `Irc.doChghost`): state effect and whether they raise -/
 def Bot.ircCmd (b : Bot) (m : Msg) : Bot × Bool :=
-  let key := m.cmd.map asciiUpperChar
-  if key = "JOIN".toList then
-    if m.nick = b.nick then (b, m.args.isEmpty) else (b, false)
-  else if key = "315".toList then
-    (b, decide (m.args.length < 2))
-  else if key = "NICK".toList then
-    if m.nick = b.nick then
-      match m.args with
-      | [] => (b, true)
-      | newNick :: _ =>
-        let b1 := { b with nick := newNick }
-        match splitHostmask m.pfx with
-        | none => (b1, true)
-        | some (_, user, domain) =>
-          if newNick.isEmpty || user.isEmpty || domain.isEmpty then (b1, true)
-          else ({ b1 with pfx := mkHostmask newNick user domain }, false)
-    else (b, false)
-  else if key = "CHGHOST".toList then
-    if m.nick = b.nick then
-      match m.args with
-      | [user, host] =>
-        if b.nick.isEmpty || user.isEmpty || host.isEmpty then (b, true)
-        else ({ b with pfx := mkHostmask b.nick user host }, false)
-      | _ => (b, true)
-    else (b, false)
-  else (b, false)
+  match cmdOf m.cmd with
+  | .join => if m.nick = b.nick then (b, m.args.isEmpty) else (b, false)
+  | .n315 => (b, decide (m.args.length < 2))
+  | .nick => b.ircNick m
+  | .chghost => b.ircChghost m
+  | _ => (b, false)
 
 /-- `Irc.feedMsg` restricted to `irc.nick`, `irc.prefix`, `irc.server` and `irc.state` -/
 def Bot.feed (b : Bot) (m0 : Msg) : Bot × Exc :=
